@@ -100,7 +100,7 @@ FORMULAS = {
     "C03": ["Gen.xOpt_is_code", "Gen.capacity_is_code", "Gen.cons_is_code", "Gen.cons_base_is_code", "Gen.production_max_is_code",
             "Gen.production_is_code", "Gen.productionPhase_is_code"],
     "C18": ["Gen.cons_is_code", "Gen.cons_base_is_code", "Gen.zProd_is_code", "Gen.altShare_is_code", "Gen.ordersFrom_is_code", "Gen.gapOpen_is_code"],
-    "C06": ["Gen.needWith_is_code", "Gen.zProd_is_code", "Gen.altShare_is_code", "Gen.ordersFrom_is_code", "Gen.gapOpen_is_code", "Gen.goal_is_code"],
+    "C06": ["Gen.needWith_is_code", "Gen.zProd_is_code", "Gen.altShare_is_code", "Gen.ordersFrom_is_code", "Gen.gapOpen_is_code", "Gen.goal_is_code", "Gen.ordersOpen_is_code"],
     "C04": ["Gen.deliverCell_is_code", "Gen.deliveries_are_code"],
     "C05": ["Gen.stockUse_is_code", "Gen.stockUpdated_is_code", "Gen.deliveries_are_code"],
     "C08": ["Gen.subBlock_is_code", "Gen.deliverCell_is_code", "Gen.settle_indus_is_code", "Gen.settle_house_is_code", "Gen.settle_same_rule",
@@ -135,7 +135,7 @@ FORMULA_MODULE = {
     "Gen.deliverCell_is_code": "FormulasDistribute", "Gen.deliveries_are_code": "FormulasDistribute", "Gen.stockUse_is_code": "FormulasDistribute",
     "Gen.stockUpdated_is_code": "FormulasDistribute", "Gen.subBlock_is_code": "FormulasDistribute",
     "Gen.needWith_is_code": "FormulasOrders", "Gen.zProd_is_code": "FormulasOrders", "Gen.altShare_is_code": "FormulasOrders",
-    "Gen.ordersFrom_is_code": "FormulasOrders", "Gen.gapOpen_is_code": "FormulasOrders", "Gen.goal_is_code": "FormulasOrders",
+    "Gen.ordersFrom_is_code": "FormulasOrders", "Gen.gapOpen_is_code": "FormulasOrders", "Gen.goal_is_code": "FormulasOrders", "Gen.ordersOpen_is_code": "FormulasOrders",
     "Gen.settle_indus_is_code": "FormulasLedger", "Gen.settle_house_is_code": "FormulasLedger", "Gen.settle_same_rule": "FormulasLedger",
     "Gen.presented_is_code": "FormulasLedger",
     "Gen.convert_impact_is_code": "FormulasUnits", "Gen.convert_house_is_code": "FormulasUnits", "Gen.convert_same_rule": "FormulasUnits",
